@@ -36,7 +36,7 @@ CORR = (1, 2, 3, 4, 5, 6, 7, 8, 9)
 # present (= guard false), finding id)
 ORACLE = {
     11: (CORR, None, None),
-    12: ((2,), 201, 'C11-JOIN-FILL-ZERO-VARIANCE'),
+    12: (CORR, None, None),        # C11-JOIN-FILL-ZERO-VARIANCE fixed in a9c876f: any recurrence is a VIOLATION
     13: ((2,), 202, 'C11-JOIN-FILL-INBLOCK-ZERO'),
     14: (CORR, None, None),
     15: (CORR, None, None),
@@ -534,7 +534,8 @@ NTAGS = {
 }
 NCORR = (31, 32, 33, 34, 35, 36, 37)
 NORACLE = {41: (NCORR, None, None), 42: (NCORR, None, None), 43: (NCORR, None, None),
-           44: ((35, 36), 241, 'C11-UCP-NEGATIVE-COVARIANCE'), 45: (NCORR, None, None),
+           44: (NCORR, None, None),   # C11-UCP-NEGATIVE-COVARIANCE fixed in 859061b
+           45: (NCORR, None, None),
            46: (NCORR, None, None), 47: (NCORR, None, None)}
 NIMPORTS = 'Base.PyData Base.Expr C11.Model C11.NumModel C11.NumCheck'
 
@@ -1038,8 +1039,9 @@ def run_specs(ctx, specs, label, quiet=False, im=None, mutate=None, observed=())
 
 def finding_probes(ctx):
     """Replay the stored witness of every open finding on the real code."""
+    fixed_ids = {f['id'] for f in ctx.findings if f.get('status') == 'fixed'}   # staged updates win by id
     for f in ctx.findings:
-        if f.get('status') != 'open':
+        if f.get('status') != 'open' or f['id'] in fixed_ids:
             continue
         if f.get('kind', 'algebra') == 'num':
             verdicts, _, _ = run_num_specs(ctx, [f['witness']], 'finding-' + f['id'], quiet=True)
@@ -1101,7 +1103,7 @@ def run(ctx):
         'nvars_hist': {str(k): sum(1 for i in infos if i['nvars'] == k) for k in sorted({i['nvars'] for i in infos})},
         'ops': dict(sorted(ophist.items())),
         'error_kinds': {k: sum(i['errors'].count(k) for i in infos) for k in ERRS},
-        'guard_zero_variance_fill': sum(1 for v in verdicts if 201 in v),
+        'zero_variance_joined_with_fill': sum(1 for v in verdicts if 201 in v),
         'guard_inblock_zero_fill': sum(1 for v in verdicts if 202 in v),
         'guard_removed_not_prefix': sum(1 for v in verdicts if 203 in v),
         'states_with_duplicate_names': sum(1 for v in verdicts if 210 in v),
